@@ -5,6 +5,14 @@ use cao_verif::*;
 
 fn main() {
     let args: Vec<String> = std::env::args().collect();
+    if args.get(1).map(|s| s.as_str()) == Some("--sizes") {
+        println!(
+            "CaoLangObject={} align={}",
+            std::mem::size_of::<cao_lang::vm::runtime::cao_lang_object::CaoLangObject>(),
+            std::mem::align_of::<cao_lang::vm::runtime::cao_lang_object::CaoLangObject>()
+        );
+        return;
+    }
     if args.len() < 2 {
         eprintln!("usage: replay <harness> [hex,hex,...]");
         std::process::exit(4);
